@@ -142,6 +142,8 @@ fn iter_builders(r: &mut Rng, m: &Model, o: &mut CaseOut) {
         bad[u].insert(u); // self-loop
         let _ = o.must_panic("AdjacencyList::from(rows):self-loop-accepted", || format!("row {u} contains {u}"), || AdjacencyList::from(bad.clone()));
         let _ = o.must_panic("AdjacencyMap::from(rows):self-loop-accepted", || format!("row {u} contains {u}"), || AdjacencyMap::from(bad.clone()));
+        let wloop: Vec<BTreeMap<usize, isize>> = bad.iter().map(|s| s.iter().map(|&v| (v, -2)).collect()).collect();
+        let _ = o.must_panic("AdjacencyListWeighted::from(rows):self-loop-accepted", || format!("row {u} contains {u}"), || AdjacencyListWeighted::<isize>::from(wloop.clone()));
         let mut bad = rows.clone();
         let far = n + r.below(3);
         bad[u].insert(far); // head outside
